@@ -558,6 +558,8 @@ impl HandlerRunner {
                         let who = self.id_idx(&enr.node_id());
                         if who != srcidx {
                             out.push(format!("!MON C01 established-for-foreign-record node={} source={} record-id={}", idx, srcidx, who));
+                            // (C12: the service admits whoever is reported established)
+                            out.push(format!("!MON C12 established-report-names-another-node-than-the-session-peer node={} source={} record-id={}", idx, srcidx, who));
                         }
                     }
                     let dh = self.delivering_handshake;
